@@ -5,7 +5,7 @@ from vlib import core
 LEVEL = "other"
 EXPLANATION = (
     "partial proof + differential exploration.  Proved in Coq (unbounded): soundness of the Z_2 Gaussian elimination the "
-    "specification runs on, the semantic reading of its relation sweep, 'bars alive at i = r(i,i) = Betti number of K_i', "
+    "specification runs on, that its relation sweep computes exactly the composed relation (with cycle representatives), 'bars alive at i = r(i,i) = Betti number of K_i', "
     "transparency of identity arrows, the insertion-only clause end to end (on insertion-only sequences the specification's "
     "barcode is the certified ordinary persistence pairing: pairing theorem + bridge to coq/ReduceExec.v), the "
     "index->value translation / zero-length / ignored-dimension clauses of the filtered front-ends as functions of the index "
@@ -44,8 +44,9 @@ TRUSTED = [
     "un-formalised mathematics: a zigzag module is a direct sum of interval modules and the number of summands covering [b,e] "
     "equals dim dom - dim ker of the composed relation V_b ~> V_e (Gabriel; Carlsson & de Silva, Zigzag persistence, FoCM 2010), "
     "equivalently the generalised rank rank(lim -> colim) (Kim & Memoli 2021; Dey, Kim & Memoli 2022); multiplicities by inclusion-exclusion",
-    "the chain-level computation of that relation inside the chain complex of all cells (coq/C07_Model.v init_rel/step_rel), "
-    "cross-validated by tools/c07_xval.py (two independent Python implementations), not proved",
+    "that 'related through a family of cycle representatives' (coq/C07_Rel.v, proved to be what the sweep computes) is 'related by the "
+    "maps induced on homology by the inclusions and their converses' - the definition of the induced map, not formalised; the whole "
+    "specification is additionally cross-validated by tools/c07_xval.py (two independent Python implementations) inside every run",
     "hand-written models of the filtered front-ends (coq/C07_Model.v), tied to the C++ by the differential run",
     "harness/c07_drv.cpp, g++ 12.2, Boost; the generators and the shrinker of props/c07.py",
 ]
